@@ -152,6 +152,15 @@ func (s *Service) Init(ctx context.Context) error {
 // Shutdown is part of linker.Shutdowner
 func (s *Service) Shutdown() {
 	s.tmir.close()
+	// Nothing else flushes the chunk writers before the process exits: records acknowledged less than
+	// WriteFlushMs ago are still in the writers' buffers. Only the last chunk of a journal can hold such
+	// records (a full chunk is synced when the writer moves on).
+	s.Journals.Visit(context.Background(), func(j journal.Journal) bool {
+		if cks, err := j.Chunks().Chunks(context.Background()); err == nil && len(cks) > 0 {
+			cks[len(cks)-1].Sync()
+		}
+		return true
+	})
 }
 
 // Write performs Write operation to a partition defined by tags.
